@@ -554,6 +554,9 @@ V('M-opt-after-lookup', ['C17'], 'A4.contra', BE, "                if namedType.
 V('M-kind-fastpath', ['C11'], 'A12.kinds', BD, "        substrate = asSeekableStream(substrate)\n\n        streamingDecoder = cls.STREAMING_DECODER(", "        if not isinstance(substrate, bytes):\n            substrate = asSeekableStream(substrate)\n\n        else:\n            substrate = io.BytesIO(substrate)\n\n        streamingDecoder = cls.STREAMING_DECODER(")
 V('M-no-octetstring-arm', ['C11'], 'A12.total', ST, "    elif isinstance(substrate, univ.OctetString):\n        return io.BytesIO(substrate.asOctets())\n", "")
 V('M-peek-no-seekback', ['C11'], 'A12.cache', ST, "        result = self.read(n)\n        if result:\n            self._cache.seek(-len(result), os.SEEK_CUR)\n        return result", "        result = self.read(n)\n        return result")
+V('M-peek-abs-late', ['C11'], 'A12.cache', ST, "        result = self.read(n)\n        if result:\n            self._cache.seek(-len(result), os.SEEK_CUR)\n        return result", "        result = self.read(n)\n        position = self._cache.tell()\n        self._cache.seek(position, os.SEEK_SET)\n        return result")
+V('M-error-factory-builtin', ['C08'], 'A3.raise', UN, "        raise error.PyAsn1Error('Malformed Object ID %s at %s' % (value, self.__class__.__name__))\n", "        raise self._malformed(value)\n\n    def _malformed(self, value):\n        return ValueError('Malformed Object ID %s at %s' % (value, self.__class__.__name__))\n")
+V('M-der-table-shared-by-generator', ['C03'], None, DE, "TYPE_MAP.update({\n    # Set & SetOf have same tags\n    univ.Set.typeId: SetEncoder()\n})", "TYPE_MAP.update((t.typeId, encoder.TYPE_MAP[t.typeId]) for t in (univ.Set,))")
 
 # ---- purity (C12)
 V('M-no-clone', ['C12'], 'A5.spec', BD, "            asn1Object = self.protoComponent.clone(tagSet=tagSet)\n\n        else:\n            asn1Object = asn1Spec.clone()\n\n        if substrateFun:\n            for chunk in substrateFun(asn1Object, substrate, length, options):\n                yield chunk\n\n            return\n\n        options = self._passAsn1Object(asn1Object, options)\n\n        if asn1Object.tagSet == tagSet:",
